@@ -152,7 +152,30 @@ def leanchecker(mods):
     return rc == 0, (out + err)[-1500:]
 
 
+def gen_main():
+    """Main.lean and Relay.lean are generated from the files present: every Relay/Drv/Foo.lean must define
+    `DrvFoo.modes : List (String × IO Unit)`."""
+    drv = sorted(os.path.basename(f)[:-5] for f in glob.glob(LEAN + "/Relay/Drv/*.lean"))
+    main = "".join(f"import Relay.Drv.{d}\n" for d in drv)
+    main += "\n/-! GENERATED by vlib.gen_main from Relay/Drv/*.lean -- do not edit -/\n\n"
+    main += "def allModes : List (String × IO Unit) :=\n  " + " ++ ".join(f"Drv{d}.modes" for d in drv) + "\n\n"
+    main += ("def main (args : List String) : IO UInt32 := do\n  match args with\n  | [m] =>\n    match allModes.lookup m with\n"
+             "    | some act => act; return 0\n    | none => IO.eprintln s!\"unknown mode {m}\"; return 2\n"
+             "  | _ => IO.eprintln \"usage: relaydrv <mode>\"; return 2\n")
+    mods = []
+    for f in sorted(glob.glob(LEAN + "/Relay/**/*.lean", recursive=True)):
+        rel = os.path.relpath(f, LEAN)[:-5].replace("/", ".")
+        if rel.startswith("Relay.Audit."):
+            continue
+        mods.append(rel)
+    root = "-- GENERATED by vlib.gen_main -- do not edit\n" + "".join(f"import {m}\n" for m in mods)
+    for path, txt in ((LEAN + "/Main.lean", main), (LEAN + "/Relay.lean", root)):
+        if not os.path.exists(path) or open(path).read() != txt:
+            open(path, "w").write(txt)
+
+
 def build_model_driver():
+    gen_main()
     rc, log = lake_build(["relaydrv"])
     return rc == 0, log[-4000:]
 
